@@ -102,27 +102,19 @@ def setattr (c : Cls) (d : Dict) (sp : Name) (v : Val) : Dict × SetRes :=
 
 inductive DelRes where
   | ok
-  | keyError
+  | attrError                     -- AttributeError(name): no key matches
   deriving DecidableEq, Repr
 
-/-- `Class.__delattr__`:
-      for name in self.__dict__:
-          if uname == name.upper(): break
-      del self.__dict__[name]
-    When no key matches, `name` is left bound to the LAST key of `__dict__` (or to the argument when
-    `__dict__` is empty), and that key is deleted. -/
-def delTarget (d : Dict) (sp : Name) : Name :=
-  match d.find? (fun kv => decide (fold kv.1 = fold sp)) with
-  | some kv => kv.1
-  | none =>
-    match d.getLast? with
-    | some kv => kv.1
-    | none => sp
-
+/-- `Class.__delattr__` (current code):
+      for key in self.__dict__:
+          if uname == key.upper():
+              del self.__dict__[key]; return
+      raise AttributeError(name)
+    The first key that matches case-insensitively is deleted; without a match nothing is touched. -/
 def delattr (d : Dict) (sp : Name) : Dict × DelRes :=
-  match dget d (delTarget d sp) with
-  | some _ => (ddel d (delTarget d sp), .ok)
-  | none => (d, .keyError)
+  match d.find? (fun kv => decide (fold kv.1 = fold sp)) with
+  | some kv => (ddel d kv.1, .ok)
+  | none => (d, .attrError)
 
 /-- `serialize_instance` reads `getattr(inst, name)` for every declared name, in order -/
 def serialReads (c : Cls) (d : Dict) : List Read := c.names.map (getattr c d)
@@ -149,10 +141,14 @@ def run (c : Cls) (d : Dict) (h : List Op) : Dict := h.foldl (step c) d
 
     for name, ty in attributes:   if name not in referential_attributes: setattr(inst, name, default)
     for attr, value in zip(attributes, args):  (same test) setattr  /  referential_attributes[name] = value
-    for name, value in kwargs.items():         (same test) setattr  /  referential_attributes[name] = value
+    for name, value in kwargs.items():
+        for attr_name in self.attribute_names:              # the keyword is first resolved to the declared
+            if attr_name.upper() == name.upper():           # name, as attribute access does
+                name = attr_name; break
+        (same test) setattr  /  referential_attributes[name] = value
 
-  The test `name not in self.referential_attributes` compares EXACT spellings; the three loops are
-  therefore one loop over `defaults ++ zip names args ++ kwargs`. -/
+  The test `name not in self.referential_attributes` compares EXACT spellings; after the resolution of the
+  keyword names the three loops are one loop over `defaults ++ zip names args ++ resolved kwargs`. -/
 
 structure NewAcc where
   dict : Dict
@@ -172,9 +168,16 @@ def assignAll (c : Cls) : NewAcc → List (Name × Val) → NewAcc × SetRes
     | (acc', .ok) => assignAll c acc' r
     | (acc', .metaExc) => (acc', .metaExc)
 
+/-- a keyword name becomes the first declared name with the same upper-casing; unchanged if there is none -/
+def resolveKw (c : Cls) (kw : Name × Val) : Name × Val := ((declMatch c kw.1).getD kw.1, kw.2)
+
+def newItems (c : Cls) (defaults : List (Name × Val)) (args : List Val) (kwargs : List (Name × Val)) :
+    List (Name × Val) :=
+  defaults ++ c.names.zip args ++ kwargs.map (resolveKw c)
+
 def newCore (c : Cls) (defaults : List (Name × Val)) (args : List Val) (kwargs : List (Name × Val)) :
     NewAcc × SetRes :=
-  assignAll c ⟨[], []⟩ (defaults ++ c.names.zip args ++ kwargs)
+  assignAll c ⟨[], []⟩ (newItems c defaults args kwargs)
 
 /-! ### the class table: `MetaModel.metaclasses`, keyed by `kind.upper()` -/
 
@@ -206,7 +209,7 @@ def defineAll (cs : Classes) : List (Name × List (Name × Name)) → Classes
     (`relate`/`unrelate` cardinality logic in general is C02's subject; here only this shape.) -/
 
 inductive Exc where
-  | attributeError | keyError | metaE | metaModelE | unknownClass | relateE | unrelateE | unknownLink
+  | attributeError | metaE | metaModelE | unknownClass | relateE | unrelateE | unknownLink
   deriving DecidableEq, Repr
 
 structure Inst where
@@ -296,7 +299,7 @@ def deleteVal (w : World) (i : Nat) (sp : Name) : World × Option Exc :=
   | some inst =>
     match delattr inst.dict sp with
     | (d, .ok) => (setInstDict w i d, none)
-    | (d, .keyError) => (setInstDict w i d, some .keyError)
+    | (_, .attrError) => (w, some .attributeError)      -- `delattr` returns the dictionary unchanged in this case
 
 /-- indices of the instances in `metaclass.storage`, in creation order -/
 def storageOf (w : World) (key : Name) : List Nat :=
@@ -436,7 +439,7 @@ def newInstWith (dflt : DfltFn) (w : World) (kind : Name) (args : List Val) (kwa
       let (acc, _) := assignAll c ⟨[], []⟩ defs
       ({ w with insts := w.insts ++ [{ cls := key, dict := acc.dict }], nextId := nid }, some .metaE)
     else
-      let (acc, res) := assignAll c ⟨[], []⟩ (defs ++ c.names.zip args ++ kwargs)
+      let (acc, res) := assignAll c ⟨[], []⟩ (newItems c defs args kwargs)
       let w1 := { w with insts := w.insts ++ [{ cls := key, dict := acc.dict }], nextId := nid }
       match res with
       | .metaExc => (w1, some .metaE)
